@@ -490,10 +490,52 @@ theorem scratch_shape_monotone_real (wl wl' dx0 dx1 du0 du1 z : ℝ) (os : Int) 
     (fftShape dx0 dx1 du0 du1 z wl os).2 ≤ (scratchShape wl' dx0 dx1 du0 du1 z os).2 :=
   scratch_shape_monotone (fun _ => rfl) roundEven_real_mono wl wl' dx0 dx1 du0 du1 z os hwl hpos hos
 
+/-- **The advertised scratch shape does not depend on the length unit**: `scratch_shape` with every length (wavelengths, pixel scales,
+focal length) multiplied by `k > 0` is the same shape — a buffer sized in one unit system fits in any other. -/
+theorem scratch_shape_scale_invariant_real (k maxWl dx0 dx1 du0 du1 z : ℝ) (os : Int) (hk : 0 < k) :
+    scratchShape (k * maxWl) (k * dx0) (k * dx1) (k * du0) (k * du1) (k * z) os = scratchShape maxWl dx0 dx1 du0 du1 z os :=
+  (fft_scale_invariant_real k dx0 dx1 du0 du1 z maxWl os 0 0 hk).1
+
 /-- **Refusal of too large shapes at ℝ** (instances of `refuses_larger_shape` / `accepted_shape_fits` with the real `>`) -/
 theorem shape_guard_real (sh S : Int × Int) (os : Int) (hos : 0 < os) :
     shapeTooBig (R := ℝ) (some sh) S os = true ↔ sh.1 * os > S.1 ∨ sh.2 * os > S.2 :=
   shapeTooBig_iff (fun _ => rfl) gt_real sh S os hos
+
+/-- **FFT propagation computes the Fraunhofer sum at the reported wavelength.** Composition of `fft_eq_propagate_dft` with C02/C01: every
+sample `[i][j]` of `Wavefront.field` of an accepted `propagate_fft` call (any accepted shape, with or without scratch) is the sum over the
+input fields of `√|α₀α₁| · Σ_x Σ_y f(x, y) · exp(-2πi(α₀·X·g_r + α₁·Y·g_c))` with `α = dx·du/(λ_reported · z · oversample)` per axis,
+`X, Y` the input coordinates relative to `⌊n/2⌋` plus the field offset and `g = (i − ⌊so₀/2⌋, j − ⌊so₁/2⌋)` — the defining double sum,
+no FFT, padding or scratch left in the statement. -/
+theorem fft_eq_fraunhofer_sum (fs : List (Fld ℂ)) (W0 W1 : Int) (dx0 dx1 du0 du1 wl z : ℝ) (os : Int)
+    (shape : Option (Int × Int)) (scratch : Option (Arr ℂ)) (lam : ℝ) (S0 S1 : Int) (so : Int × Int) (g : Fld ℂ)
+    (h : propagateFft 1 fs false W0 W1 dx0 dx1 du0 du1 wl z os shape scratch = FftOut.ok lam S0 S1 so g)
+    (hcons : dx0 * du0 = dx1 * du1 ∨ (S0 : ℝ) * (dx0 * du0) = (S1 : ℝ) * (dx1 * du1))
+    (hp : dx0 * du0 ≠ 0) (hp1 : dx1 * du1 ≠ 0) (hz : z ≠ 0) (hos : 0 < os) (hS : 0 < S0 ∧ 0 < S1)
+    (hW : 0 ≤ W0 ∧ W0 ≤ S0 ∧ 0 ≤ W1 ∧ W1 ≤ S1) (hfit : ∀ f ∈ fs, f.within W0 W1)
+    (hpos : ∀ f ∈ fs, 0 < f.arr.s0 ∧ 0 < f.arr.s1) (hso : 0 < so.1 ∧ 0 < so.2)
+    (i j : Int) (hi : 0 ≤ i ∧ i < so.1) (hj : 0 ≤ j ∧ j < so.2) :
+    (wavefrontField 1 [g] so.1 so.2).get i j =
+      (fs.map fun f =>
+        ((Real.sqrt |(dftAlpha dx0 dx1 du0 du1 lam z os).1 * (dftAlpha dx0 dx1 du0 du1 lam z os).2| : ℝ) : ℂ) *
+        ∑ x ∈ Finset.range f.arr.s0.toNat, ∑ y ∈ Finset.range f.arr.s1.toNat, f.arr.get x y *
+          Complex.exp (-(2 * Real.pi * Complex.I) *
+            (((dftAlpha dx0 dx1 du0 du1 lam z os).1 * (((x : ℤ) - f.arr.s0 / 2 + f.o0 : ℤ) : ℝ) * (((i - so.1 / 2 : ℤ) : ℝ))
+              + (dftAlpha dx0 dx1 du0 du1 lam z os).2 * (((y : ℤ) - f.arr.s1 / 2 + f.o1 : ℤ) : ℝ) * (((j - so.2 / 2 : ℤ) : ℝ)) : ℝ) : ℂ))).sum := by
+  rw [fft_eq_propagate_dft fs W0 W1 dx0 dx1 du0 du1 wl z os shape scratch lam S0 S1 so g h hcons hp hp1 hz hos hS hW hfit hpos hso i j hi hj]
+  have hR := C02.propagateDft_sample (K := ℂ) (R := ℝ) (fun _ => rfl) (fs.map fun f => (⟨f, 0, 0, 0, 0⟩ : TField ℂ ℝ))
+    (dftAlpha dx0 dx1 du0 du1 lam z os).1 (dftAlpha dx0 dx1 du0 du1 lam z os).2 so.1 so.2 so.1 so.2 1 none
+    (by simp only [mul_one]; rw [outExtent_nomask]; simp only; omega) (by simp only [mul_one]; exact hso) i j
+    (by simp only [mul_one]; exact hi) (by simp only [mul_one]; exact hj)
+  simp only [mul_one] at hR
+  rw [hR, List.map_map]
+  congr 1
+  apply List.map_congr_left; intro f _
+  have hw : ((outExtent so.1 so.2 none).inb (i - so.1 / 2) (j - so.2 / 2) &&
+      (propExtent so.1 so.2 0 0).inb (i - so.1 / 2) (j - so.2 / 2)) = true := by
+    rw [Bool.and_eq_true, (C02.whole_array so.1 so.2 _ _), (C02.prop_window so.1 so.2 0 0 _ _)]; omega
+  simp only [Function.comp, hw, if_true]
+  rw [C02.fraunhoferAt_eq_sum]
+  simp only [RealLike.ofInt, sub_zero]
 
 /-- **Too large shapes are refused, accepted ones fit — at ℂ/ℝ with the real `>`, no hypothesis about the comparison left**
 (instances of `refuses_larger_shape`, `accepted_shape_fits`). -/
